@@ -20,6 +20,14 @@ val coq_MU_RLOCK_FIELD : coq_Z
 
 val coq_LONG_WAIT_THRESHOLD : coq_Z
 
+val coq_ETIMEDOUT : coq_Z
+
+val coq_EINTR : coq_Z
+
+val coq_EAGAIN : coq_Z
+
+val coq_EINVAL : coq_Z
+
 val writer_type_zero_to_acquire : coq_Z
 
 val writer_type_add_to_acquire : coq_Z
@@ -43,3 +51,7 @@ val reader_type_set_when_waiting : coq_Z
 val reader_type_clear_on_acquire : coq_Z
 
 val reader_type_clear_on_uncontended_release : coq_Z
+
+val time_no_deadline_sec : coq_Z
+
+val time_no_deadline_nsec : coq_Z
